@@ -251,6 +251,8 @@ pub enum Outcome {
     Io {
         kind: ErrorKind,
         msg: String,
+        /// offset carried by the typed payload of a simulated failure, if the error has one
+        payload: Option<usize>,
     },
     Panic(PanicInfo),
 }
@@ -260,7 +262,7 @@ impl Outcome {
         match self {
             Outcome::CleanEnd => "clean end".into(),
             Outcome::Syntax { line, column, msg } => format!("syntax error {line}:{column}: {msg}"),
-            Outcome::Io { kind, msg } => format!("io error {kind:?}: {msg}"),
+            Outcome::Io { kind, msg, .. } => format!("io error {kind:?}: {msg}"),
             Outcome::Panic(p) => format!("PANIC {}", p.short()),
         }
     }
@@ -279,6 +281,7 @@ macro_rules! conv_err {
                 I::IoError(e) => Outcome::Io {
                     kind: e.kind(),
                     msg: e.to_string(),
+                    payload: crate::source::payload_of(&e),
                 },
             }
         }
@@ -298,6 +301,7 @@ fn conv_btor2(e: flussab_btor2::ParseError) -> Outcome {
         I::IoError(e) => Outcome::Io {
             kind: e.kind(),
             msg: e.to_string(),
+            payload: crate::source::payload_of(&e),
         },
     }
 }
